@@ -99,6 +99,19 @@ pub struct Tree {
     #[serde(default)]
     pub order_seed: u64,
 }
+/// Large contents are stored as a compact spec "@big:<bytes>:<tag>" and expanded when read (keeps workloads and replay files small).
+pub fn materialize(d: &[u8]) -> Vec<u8> {
+    if let Some(rest) = d.strip_prefix(b"@big:") {
+        if let Ok(s) = std::str::from_utf8(rest) {
+            if let Some((n, tag)) = s.split_once(':') {
+                if let (Ok(n), false) = (n.parse::<usize>(), tag.is_empty()) {
+                    return tag.as_bytes().iter().copied().cycle().take(n).collect();
+                }
+            }
+        }
+    }
+    d.to_vec()
+}
 pub fn fkey(id: &str, ext: &str) -> String {
     format!("{id}/{ext}")
 }
@@ -270,6 +283,7 @@ impl Source for SimSource {
                 Err(kind.err(&format!("{id}.{ext} is unreadable")))
             }
             Some(FileSt::Data(d)) => {
+                let d = materialize(&d);
                 self.note('r', id, ext, true);
                 let v = if self.0.variant == 3 { (k % 3) as u8 } else { self.0.variant };
                 Ok(match v {
